@@ -23,6 +23,7 @@ func init() {
 }
 
 func runC11(c *Ctx, r *Report) {
+	defer round8(c, r, "C11")
 	l := c.L
 	defer c11r14(c, r)
 	defer c11r15(c, r)
